@@ -84,7 +84,7 @@ theorem idleToSetup_sched (w : WF inst) (nn : NonNeg orc inst) {s s' : State} {r
     · exact ⟨x, hx0, ho⟩
   refine {
     idleEmpty := ?_, busyHolds := ?_, procOnBusy := ?_, ops := ?_, doneBeforeProc := ?_, doneDisjoint := ?_,
-    agvPending := ?_ }
+    agvPending := ?_, freeNoClaim := hS.freeNoClaim, depWaiting := hS.depWaiting }
   · intro y hy hyst
     rcases (memM y).mp hy with rfl | ⟨hy0, _⟩
     · simp [MachineState.toSetup] at hyst
@@ -242,7 +242,7 @@ theorem setupToWorking_sched (w : WF inst) (nn : NonNeg orc inst) {s s' : State}
       · exact absurd (hl2 o ho) (by rw [hp]; simp)
   refine {
     idleEmpty := ?_, busyHolds := ?_, procOnBusy := ?_, ops := ?_, doneBeforeProc := ?_, doneDisjoint := ?_,
-    agvPending := ?_ }
+    agvPending := ?_, freeNoClaim := hS.freeNoClaim, depWaiting := hS.depWaiting }
   · intro y hy hyst
     rcases (memM y).mp hy with rfl | ⟨hy0, _⟩
     · simp [MachineState.toWorking] at hyst
@@ -345,7 +345,7 @@ theorem workingToOutage_sched (w : WF inst) (nn : NonNeg orc inst) {s s' : State
       · exact absurd (hl2 o ho) (by rw [hp']; simp)
   refine {
     idleEmpty := ?_, busyHolds := ?_, procOnBusy := ?_, ops := ?_, doneBeforeProc := ?_, doneDisjoint := ?_,
-    agvPending := ?_ }
+    agvPending := ?_, freeNoClaim := hS.freeNoClaim, depWaiting := hS.depWaiting }
   · intro y hy hyst
     rcases (memM y).mp hy with rfl | ⟨hy0, _⟩
     · simp [MachineState.toOutage] at hyst
@@ -391,6 +391,115 @@ theorem workingToOutage_sched (w : WF inst) (nn : NonNeg orc inst) {s s' : State
     obtain ⟨x1, hx1, hox1⟩ := doneOld j1 hj1 o1 ho1 hd1
     obtain ⟨x2, hx2, hox2⟩ := doneOld j2 hj2 o2 ho2 hd2
     exact hS.doneDisjoint x1 hx1 o1 hox1 x2 hx2 o2 hox2 hmm hd1 hd2 hne
+  · intro t ht hst' o ho
+    exact hS.agvPending t ht hst' o ho
+
+theorem outageToIdle_sched (w : WF inst) {s s' : State} {r r' : Rng}
+    {m : MachineState} (hI : StructInv inst s) (hS : SchedInv s) (hm : m ∈ s.machines) (hst : m.st = .outage)
+    (h : handleMachineOutageToIdle inst s r m = .ok (s', r')) : SchedInv s' := by
+  obtain ⟨j, op, mc, rest, bss1, bss2, hstore0, hj, hp, hmc, hmcid, hcap, _, rfl⟩ := outageToIdle_spec h
+  have hs := hI.shape
+  have hjn := hs.jobsNodup w
+  have hmn := hs.machNodup w
+  have hbusy : m.st ≠ .idle := by rw [hst]; simp
+  obtain ⟨hstore, op0, hp0, hm0, hstop0, _⟩ := busy_job hI hS w hm hbusy hj (by rw [hstore0]; simp)
+  have : op0 = op := by rw [hp] at hp0; simpa using hp0.symm
+  subst this
+  obtain ⟨l1, l2, hops, _, hopst⟩ := processing?_split' hp
+  have hl1 : ∀ x ∈ l1, x.st = .done := OpsOK_prefix_done op0 (by rw [hopst]; simp) l2 l1 none (hops ▸ hS.ops j hj)
+  have hl2 : allIdle l2 := OpsOK_after op0 (by rw [hopst]; simp) l2 l1 none hl1 (hops ▸ hS.ops j hj)
+  have hkn := hs.ops_key_nodup w hj
+  have hopmem : op0 ∈ j.ops := by rw [hops]; simp
+  have hj'ops : ((j.replaceOp { op0 with stop := some s.time, st := .done }).at m.post.id).ops =
+      l1 ++ { op0 with stop := some s.time, st := .done } :: l2 := by
+    simp only [JobState.at_ops]
+    exact replaceOp_split j l1 op0 _ l2 hops hkn ⟨rfl, rfl⟩
+  have memJ : ∀ x, x ∈ ((s.replaceJob ((j.replaceOp { op0 with stop := some s.time, st := .done }).at m.post.id)).replaceMachine
+        (m.toIdle j.id bss1 bss2)).jobs ↔
+      (x = (j.replaceOp { op0 with stop := some s.time, st := .done }).at m.post.id ∨ (x ∈ s.jobs ∧ x.id ≠ j.id)) := by
+    intro x; rw [replaceMachine_jobs]; exact mem_replaceJob hjn hj (by simp) x
+  have memM : ∀ y, y ∈ ((s.replaceJob ((j.replaceOp { op0 with stop := some s.time, st := .done }).at m.post.id)).replaceMachine
+        (m.toIdle j.id bss1 bss2)).machines ↔ (y = m.toIdle j.id bss1 bss2 ∨ (y ∈ s.machines ∧ y.id ≠ m.id)) := by
+    intro y
+    exact mem_replaceMachine (s := s.replaceJob _) hmn hm (by simp [MachineState.toIdle]) y
+  -- every operation record of the new state is an old record, except the finished one
+  have opOld : ∀ x, x ∈ ((s.replaceJob ((j.replaceOp { op0 with stop := some s.time, st := .done }).at m.post.id)).replaceMachine
+        (m.toIdle j.id bss1 bss2)).jobs → ∀ o ∈ x.ops,
+      o = { op0 with stop := some s.time, st := .done } ∨ (∃ x0 ∈ s.jobs, o ∈ x0.ops ∧ (x0.id = j.id → o.st ≠ .processing)) := by
+    intro x hx o ho
+    rcases (memJ x).mp hx with rfl | ⟨hx0, hxne⟩
+    · rw [hj'ops] at ho
+      rcases List.mem_append.mp ho with ho | ho
+      · exact Or.inr ⟨j, hj, by rw [hops]; simp [ho], fun _ => by rw [hl1 o ho]; simp⟩
+      · rcases List.mem_cons.mp ho with rfl | ho
+        · exact Or.inl rfl
+        · exact Or.inr ⟨j, hj, by rw [hops]; simp [ho], fun _ => by rw [hl2 o ho]; simp⟩
+    · exact Or.inr ⟨x, hx0, ho, fun e => absurd e hxne⟩
+  -- a processing operation on machine m belongs to job j
+  have procOnM : ∀ x0 ∈ s.jobs, ∀ o ∈ x0.ops, o.st = .processing → o.machine = m.id → x0.id = j.id := by
+    intro x0 hx0 o ho hpr hmid
+    obtain ⟨m3, hm3, h1, _, h3⟩ := hS.procOnBusy x0 hx0 o ho hpr
+    have : m3 = m := eq_of_mem_of_key_eq (key := fun (z : MachineState) => z.id) hmn hm3 hm (by rw [h1, hmid])
+    subst this
+    rw [hstore] at h3; simpa using h3.symm
+  obtain ⟨a0, b0, ha0, hb0, _, hale, _⟩ := (OpsOK_mem _ _ (hS.ops j hj) op0 hopmem).2.1 hopst
+  refine {
+    idleEmpty := ?_, busyHolds := ?_, procOnBusy := ?_, ops := ?_, doneBeforeProc := ?_, doneDisjoint := ?_,
+    agvPending := ?_, freeNoClaim := hS.freeNoClaim, depWaiting := hS.depWaiting }
+  · intro y hy hyst
+    rcases (memM y).mp hy with rfl | ⟨hy0, _⟩
+    · simp [MachineState.toIdle, hstore]
+    · exact hS.idleEmpty y hy0 hyst
+  · intro y hy hyst
+    rcases (memM y).mp hy with rfl | ⟨hy0, hyne⟩
+    · simp [MachineState.toIdle] at hyst
+    · obtain ⟨j2, hj2, hst2, op2, hp2, h3, h4, h5⟩ := hS.busyHolds y hy0 hyst
+      have hne : j2.id ≠ j.id := other_machine_other_job hI w hm hy0 hyne hstore hst2
+      exact ⟨j2, (memJ j2).mpr (Or.inr ⟨hj2, hne⟩), hst2, op2, hp2, h3, h4, h5⟩
+  · intro x hx o ho hpr
+    rcases (memJ x).mp hx with rfl | ⟨hx0, hxne⟩
+    · rw [hj'ops] at ho
+      rcases List.mem_append.mp ho with ho | ho
+      · exact absurd (hl1 o ho) (by rw [hpr]; simp)
+      · rcases List.mem_cons.mp ho with rfl | ho
+        · simp at hpr
+        · exact absurd (hl2 o ho) (by rw [hpr]; simp)
+    · obtain ⟨m3, hm3, h1, h2, h3⟩ := hS.procOnBusy x hx0 o ho hpr
+      have hne : m3.id ≠ m.id := by
+        intro e
+        have : m3 = m := eq_of_mem_of_key_eq (key := fun (z : MachineState) => z.id) hmn hm3 hm e
+        subst this; rw [hstore] at h3; simp at h3; exact hxne h3.symm
+      exact ⟨m3, (memM m3).mpr (Or.inr ⟨hm3, hne⟩), h1, h2, h3⟩
+  · intro x hx
+    simp only [replaceMachine_time, replaceJob_time]
+    rcases (memJ x).mp hx with rfl | ⟨hx0, _⟩
+    · rw [hj'ops]
+      have := hS.ops j hj
+      rw [hops] at this
+      exact OpsOK_finish op0 hopst l2 l1 none hl1 this
+    · exact hS.ops x hx0
+  · intro j1 hj1 o1 ho1 j2 hj2 o2 ho2 hmm hd1 hpr b1 a2 hb1 ha2
+    rcases opOld j2 hj2 o2 ho2 with rfl | ⟨x2, hx2, hox2, hnp2⟩
+    · simp at hpr
+    · rcases opOld j1 hj1 o1 ho1 with rfl | ⟨x1, hx1, hox1, _⟩
+      · -- the freshly finished record against a running one on the same machine: impossible
+        have : x2.id = j.id := procOnM x2 hx2 o2 hox2 hpr (by rw [← hmm]; exact hm0)
+        exact absurd hpr (hnp2 this)
+      · exact hS.doneBeforeProc x1 hx1 o1 hox1 x2 hx2 o2 hox2 hmm hd1 hpr b1 a2 hb1 ha2
+  · intro j1 hj1 o1 ho1 j2 hj2 o2 ho2 hmm hd1 hd2 hne
+    rcases opOld j1 hj1 o1 ho1 with rfl | ⟨x1, hx1, hox1, _⟩ <;>
+      rcases opOld j2 hj2 o2 ho2 with rfl | ⟨x2, hx2, hox2, _⟩
+    · exact absurd rfl hne
+    · -- new done [a0, now] vs old done o2 on the same machine: o2 ended before op0 started
+      intro a1 b1 a2 b2 h1 h2 h3 h4
+      simp at h1 h2
+      have := hS.doneBeforeProc x2 hx2 o2 hox2 j hj op0 hopmem hmm.symm hd2 hopst b2 a0 h4 ha0
+      right; rw [ha0] at h1; simp at h1; omega
+    · intro a1 b1 a2 b2 h1 h2 h3 h4
+      simp at h3 h4
+      have := hS.doneBeforeProc x1 hx1 o1 hox1 j hj op0 hopmem hmm hd1 hopst b1 a0 h2 ha0
+      left; rw [ha0] at h3; simp at h3; omega
+    · exact hS.doneDisjoint x1 hx1 o1 hox1 x2 hx2 o2 hox2 hmm hd1 hd2 hne
   · intro t ht hst' o ho
     exact hS.agvPending t ht hst' o ho
 
